@@ -4,7 +4,7 @@
      crash <kind> <prior|-> <new> <size> <k>
      sched <prior|-> <polls> <pts,..> <pid:cmd;..> <pid,pid,..|->
    values: comma separated entry ids, e = empty list; - = absent.
-   cmd: snap:<e> | snapu:<e> (no update lock) | hist | ub:<ids> | cb | cc:<ids> *)
+   cmd: snap:<e> | snapu:<e> (no update lock) | asnap:<e> (check's auto-snapshot) | hist | ub:<ids> | cb | cc:<ids> *)
 open State_ex
 let rec pos_of_int n = if n = 1 then XH else if n land 1 = 0 then XO (pos_of_int (n lsr 1)) else XI (pos_of_int (n lsr 1))
 let n_of_int n = if n = 0 then N0 else Npos (pos_of_int n)
@@ -43,6 +43,7 @@ let cmd_of s =
   match String.split_on_char ':' s with
   | ["snap"; e] -> cmd_snapshot (n_of_int (int_of_string e))
   | ["snapu"; e] -> cmd_snapshot_unlocked (n_of_int (int_of_string e))
+  | ["asnap"; e] -> cmd_auto_snapshot (n_of_int (int_of_string e))
   | ["hist"] -> cmd_stats_history
   | ["ub"; v] -> cmd_update_baseline (value_of v)
   | ["cb"] -> cmd_check_baseline
@@ -78,6 +79,20 @@ let () =
           | None -> "absent"
           | Some b -> if b = nb then "full" else if b = [] then "empty" else "partial" in
         Printf.printf "target=%s\ttemp=%s\tnext=%s\n" (show_file (target f)) temp (show_outcome (load_kind (kind_of kind) f))
+      | ["hist"; prior; hist; nw; size; k] ->
+        (* a history of crashed saves of one recycled pid  c:size:k;...  then a save of <new> crashed at k (9 = complete) *)
+        let h = if hist = "-" then [] else List.map (fun item ->
+            match String.split_on_char ':' item with
+            | [c; sz; k] -> ((ser (value_of c), n_of_int (int_of_string sz)), nat_of_int (int_of_string k))
+            | _ -> failwith "hist") (String.split_on_char ';' hist) in
+        let nb = ser (value_of nw) in
+        let f0 = after_crashes (fs_init (prior_of prior)) h in
+        let f = crash_from f0 nb (n_of_int (int_of_string size)) (nat_of_int (int_of_string k)) in
+        let show_temp g = match temp_of g with None -> "absent" | Some b -> show_bytes b in
+        Printf.printf "stale=%s\ttarget=%s\ttemp=%s\n" (show_temp f0) (show_file (target f)) (show_temp f)
+      | ["wait"; timeout; mode] ->
+        let next = if mode = "double" then (fun x -> State_ex.N.add x x) else (fun x -> x) in
+        Printf.printf "%d\n" (int_of_n (total_wait (n_of_int (int_of_string timeout)) lock_poll_interval_ms next))
       | ["crashraw"; prior; nw; size; k] ->
         let f = crash (prior_of prior) (ser (value_of nw)) (n_of_int (int_of_string size)) (nat_of_int (int_of_string k)) in
         let enc = function None -> [7] | Some b -> 8 :: List.map int_of_n b in
